@@ -450,10 +450,12 @@ fn run_cursor_item(b: &mut Built, drv: &mut Driver, case: &Value, item: &Value, 
       s.disagree("cursor.sort.accepted-but-model-rejects", &sub, out.brief(), m.clone());
     }
     if cls == "ok" {
-      // what was accepted must be the hex of a JSON payload of version 2
+      // what was accepted must be the hex of a JSON payload of the current sort cursor version
+      // (SORT_CURSOR_VERSION in api/reader.rs, `SL.Cursor.sortCursorVersion` in the model: 3 since
+      // /repo 0331be9 stores f64 sort values as bit patterns)
       let bytes: Vec<u8> = p["bytes"].as_array().map(|a| a.iter().map(|x| x.as_u64().unwrap_or(0) as u8).collect()).unwrap_or_default();
       let parsed: Option<Value> = serde_json::from_slice(&bytes).ok();
-      if parsed.as_ref().map(|v| v["version"] != json!(2)).unwrap_or(true) {
+      if parsed.as_ref().map(|v| v["version"] != json!(3)).unwrap_or(true) {
         s.disagree("cursor.sort.accepted-payload", &sub, out.brief(), m.clone());
       }
     }
